@@ -4,6 +4,7 @@ import Refine.Lemmas.MatrixRot0
 import Refine.Lemmas.MatrixFun
 import Refine.Lemmas.MatrixInv
 import Refine.Lemmas.MatrixQL
+import Refine.Lemmas.MatrixBlock2
 
 /-!
   C16 — the symmetric-matrix kernel of `ref_matrix.c` (model: `Refine/Model/Matrix.lean`).
@@ -120,6 +121,51 @@ theorem diagM_error_kinds (m : M6 ℝ) (e : Err) (h : diagM m = .error e) : e = 
   split at h
   · rename_i e3 h3; injection h with h; subst h; exact hrow _ _ _ h3
   · exact absurd h (by simp)
+
+/-! ### `diagM_similarity` (stretch goal): proved for a 2x2 active block
+
+  Full statement, NOT proved: for every m with `diagM m = .ok d`, every implicit-shift sweep — including the
+  two-rotation sweep over the full 3x3 block (l = 0, mm = 2) — is an exact similarity `Q (T + f·I) Qᵀ = m`,
+  hence `formM d + Q N Qᵀ = m` where N collects the sub-diagonal entries dropped when they passed the
+  convergence test.  Missing: the algebra of the two-rotation sweep (tql2's closing recurrence
+  `p = -s*s2*c3*el1*e[l]/dl1`) and the bookkeeping of dropped entries after deflation.
+  Proved below: the shift and the one-rotation sweep over a 2x2 block are exact, which makes `diagM` exact on
+  every input whose tridiagonal form has e[1] = 0 — in particular on every 2-D embedded matrix. -/
+
+/-- one implicit-shift sweep over the leading 2x2 block (l = 0, mm = 1, e[1] = 0) keeps `Q (T + f·I) Qᵀ`
+    and annihilates e[0] exactly -/
+theorem sweep_block2_similarity (st : QL ℝ) (he0 : st.e0 ≠ 0) (he1 : st.e1 = 0) :
+    (sweep 0 1 st).repr0 = st.repr0 ∧ (sweep 0 1 st).e0 = 0 ∧ (sweep 0 1 st).e1 = 0 :=
+  ⟨(sweep01_repr0 st he0 he1).1, (sweep01_repr0 st he0 he1).2.1, (sweep01_repr0 st he0 he1).2.2.1⟩
+
+/-- `diagM` on inputs whose tridiagonal form has e[1] = 0: it succeeds, and the decomposition is exact —
+    unless e[0] passes the convergence test before any sweep, in which case e[0] is dropped and `d` is
+    the tridiagonal form itself -/
+theorem diagM_similarity_partial (m : M6 ℝ) (he1 : (rot0 m).e1 = 0) :
+    (∃ d, diagM m = .ok d) ∧
+    ∀ d, diagM m = .ok d →
+      IsEigSys d m ∨
+      (Orthonormal d ∧ tridiagForm d (rot0 m).e0 0 = m ∧ (tstUpd 0 (rot0 m)).isSmall 0 = true) := by
+  refine ⟨diagM_block2_ok m he1, ?_⟩
+  intro d h
+  have ho := diagM_orthonormal m d h
+  rcases diagM_block2' m d h he1 with e | ⟨e, s⟩
+  · left; exact ⟨ho, e⟩
+  · right; exact ⟨ho, e, s⟩
+
+/-- every 2-D embedded matrix (m13 = m23 = 0, as produced by `ref_matrix_twod_m`) is in that class -/
+theorem diagM_twod (m : M6 ℝ) (h13 : m.m13 = 0) (h23 : m.m23 = 0) (d : Eig12 ℝ) (h : diagM m = .ok d) :
+    IsEigSys d m ∨
+    (Orthonormal d ∧ tridiagForm d (rot0 m).e0 0 = m ∧ (tstUpd 0 (rot0 m)).isSmall 0 = true) :=
+  (diagM_similarity_partial m (rot0_e1_twod m h13 h23)).2 d h
+
+/-- non-vacuity: [[2,1,0],[1,2,0],[0,0,1]] is decomposed exactly, after one genuine QL sweep -/
+example : ∃ d, diagM (⟨2, 1, 0, 2, 0, 1⟩ : M6 ℝ) = .ok d ∧ IsEigSys d ⟨2, 1, 0, 2, 0, 1⟩ := by
+  obtain ⟨⟨d, hd⟩, hall⟩ := diagM_similarity_partial (⟨2, 1, 0, 2, 0, 1⟩ : M6 ℝ) (rot0_e1_twod _ rfl rfl)
+  refine ⟨d, hd, ?_⟩
+  rcases hall d hd with e | ⟨_, _, s⟩
+  · exact e
+  · rw [example_not_small] at s; exact absurd s (by decide)
 
 /-! ### eigen systems, quadratic forms, functions of a matrix -/
 
